@@ -137,8 +137,12 @@ def run(tier, seed):
     plines, pmeta = [], []
     for s in range(np_):
         layer = rng.randrange(7)
-        period = rng.choice([198, 198, 891, 1782, 3563, 1, 2, 100, 3000, rng.randrange(1, 3564)])
+        period = rng.choice([198, 198, 891, 1782, 3563, 1, 2, 100, 3000, 3564, rng.randrange(1, 3564)])
         cfg_period = period + rng.choice([0, 0, 0, 1, -1]) if period > 1 else period
+        if period == 3564:
+            cfg_period = rng.choice([0, 0, 1])     # one internal trigger per orbit at the same bunch crossing: distance 0 modulo 3564
+        elif rng.random() < 0.08:
+            cfg_period = 0                         # a configured period of 0 is a period like any other: every other distance is reported
         n = rng.randrange(3, 14)
         orbit0 = 0
         bc = rng.randrange(3564)
@@ -389,7 +393,7 @@ def run(tier, seed):
                     chk.disagreements.append({"stream": "cli-toml", "args": " ".join(j["mode"]), "custom": j["keys"], "impl": {"exit": rc, "total": mt.group(1) if mt else None}, "model": lm[:200]})
     chk.add_stream("cli-toml", len(jobs), cdist, csamples, distribution={"inputs": nc, "runs": len(jobs)})
     shutil.rmtree(tmp, ignore_errors=True)
-    chk.cov["rule"] = ("period: stave-level conforming links whose internal-trigger TDHs follow bc_{k+1} = bc_k + P (mod 3564, orbit carried; P in 1..3563 incl. divisors of 3564 and "
+    chk.cov["rule"] = ("period: stave-level conforming links whose internal-trigger TDHs follow bc_{k+1} = bc_k + P (mod 3564, orbit carried; P in 0..3563 incl. 0 (one trigger per orbit), divisors of 3564 and "
                        "3563), run with P and P+-1, one trigger moved by +-1 BC, physics-only TDHs in between, one trigger missing; frames split over pages (continuation TDHs); "
                        "[E45] offsets = oracle from an independent TDH walk; model `link` = real LinkValidator. custom-validator: rdh_version at the data version and +-1, "
                        "chip_count_ob 6/7/8, chip_orders_ob variants x lanes with 6/7/8 chips, swapped and second-set orders x modes; header-id errors at exactly the RDHs that "
